@@ -74,14 +74,22 @@ func (rc ringCase) String() string {
 
 func (rc ringCase) desc(now time.Time) *ring.Desc {
 	d := ring.NewDesc()
-	for _, in := range rc.insts {
+	for k, in := range rc.insts {
 		ts := now.Add(-hbTimeout).Unix()
 		if in.cls == clsStale {
 			ts = now.Add(-hbTimeout - time.Second).Unix()
 		}
+		// token lists as an instance may have registered them: every second instance lists its tokens in descending order
+		// (the ring accepts unsorted lists and must treat them as the set they are)
+		toks := append([]uint32(nil), in.tokens...)
+		if k%2 == 1 {
+			for i, j := 0, len(toks)-1; i < j; i, j = i+1, j-1 {
+				toks[i], toks[j] = toks[j], toks[i]
+			}
+		}
 		d.Ingesters[in.id] = ring.InstanceDesc{
 			Id: in.id, Addr: "addr-" + in.id, Zone: in.zone, State: clsState(in.cls),
-			Timestamp: ts, Tokens: append([]uint32(nil), in.tokens...), RegisteredTimestamp: now.Unix(),
+			Timestamp: ts, Tokens: toks, RegisteredTimestamp: now.Unix(),
 			ReadOnly: in.cls == clsActiveRO || in.cls == clsLeavingRO,
 		}
 		if in.cls == clsActiveRO || in.cls == clsLeavingRO {
